@@ -122,7 +122,17 @@ def run(ctx):
         if not forwards:
             continue
         n_cap += 1
-        facts = cmp_facts(F, P, g, bb)
+        facts = list(cmp_facts(F, P, g, bb))
+        # a dequeue that sits in a private helper with one call site is also covered by the facts that dominate that call (repeatedly)
+        g_, depth_ = g, 3
+        while depth_ > 0:
+            depth_ -= 1
+            cs_ = [(h, b2) for h in reach for b2, t2 in h.calls() if F.callee_fn(t2) is g_]
+            if len(cs_) != 1:
+                break
+            h, b2 = cs_[0]
+            facts += list(cmp_facts(F, P, h, b2))
+            g_ = h
         ok = False
         det = []
         for op, a, b, sw in facts:
